@@ -6,6 +6,21 @@ CHECKS = {
         text="Generated SOME/IP messages and datagrams: build() compared byte-for-byte with an independent encoder, parse(build+suffix) round trip, accept/reject and field differential against an independent decoder on corrupted headers, and in-order delivery of concatenated messages through datagram_received. Sampled search (all type x return-code pairs exhaustively), not a proof.",
         note="Trusted: harness/wire.py (independent codec), CPython struct. Fields are generated inside their wire widths only.",
     ),
+    "C07": dict(
+        technique="property-based testing: exhaustive closure of the (sender, channel) session-state space against a reference rule + Hypothesis sequences through real SD datagrams with counting forwarders on the reboot hooks",
+        text="Every (model state, input message) pair over the boundary alphabet is executed on a fresh session store and compared with a reference rule written from the statement (exhaustive for that alphabet); random longer sequences on the store and as real datagrams check the exactly-once fan-out to discovery, subscriber and announcer, with rejected datagrams, empty entry lists, cleared unicast flag and same-iteration bursts.",
+        note="Trusted: reference rule, virtual loop (CPython's own scheduling code), wire.py. Session id 0 is outside the domain.",
+    ),
+    "C08": dict(
+        technique="property-based testing: model-based check of per-destination counters on generated send histories (Hypothesis) + exhaustive walk of one destination's full 2 x 65535 cycle",
+        text="Generated histories of SD sends (multicast group and up to 3 unicast peers, empty sends interleaved, counts crossing the wrap at different moments) and of notification traffic of a SimpleService to up to 3 subscribers; every transmitted datagram is decoded independently and compared with the reference numbering and reboot-flag rule. One destination is walked through two complete cycles.",
+        note="Trusted: reference numbering rule, virtual loop, byte offsets of session id / flags. Thread interleavings of assign_outgoing are not explored.",
+    ),
+    "C19": dict(
+        technique="property-based testing: exhaustive enumeration of the two-values-plus-wildcard domain against a reference matcher and algebraic laws + Hypothesis full-range values",
+        text="All 34992 combinations of two descriptions over {2 concrete values, wildcard} per field, eventgroup sets and ids are checked against a reference matcher written from the statement and against the laws (symmetry, wildcard monotonicity, find/offer duality, conversion round trips, for_service); random full-range values and wildcard neighbours on top.",
+        note="Trusted: reference matcher. The representativeness of the small domain rests on the code comparing fields only for equality with each other and the wildcard constants (the random tier probes this).",
+    ),
 }
 ALL = ["C%02d" % i for i in range(1, 21)]
 NOT_APPLICABLE = {p: "check not built yet in this revision (in progress); the technique applies" for p in ALL if p not in CHECKS}
